@@ -353,8 +353,15 @@ def m_free(I, fn, n, args, st):
 
 def m_getcwd(I, fn, n, args, st):
     ev(I, "getcwd", fn, n, args, st)
-    s = havoc_targets(I, st, args[0])
-    return [(failed(st, fn, n), fs("NULL")), (s, frozenset(a for a in args[0] if a != "NULL"))]
+    outs = [(failed(st, fn, n), fs("NULL"))]
+    if "NULL" in args[0]:
+        # getcwd(NULL, n): the library allocates the buffer (glibc, musl, the BSDs, POSIX.1-2008 extension); the caller owns it
+        s, t = new_mem(I, fn, n, st)
+        outs.append((s, fs(t)))
+    rest = frozenset(a for a in args[0] if a != "NULL")
+    if rest:
+        outs.append((havoc_targets(I, st, rest), rest))
+    return outs
 
 
 def m_execvp(I, fn, n, args, st):
